@@ -89,8 +89,26 @@ def run(rep):
                     st.append({'sql': 'SELECT x, y FROM (SELECT x, y FROM t ORDER BY x NULLS LAST, y OFFSET 1) q WHERE y = 1',
                                'ref': 'SELECT x, y FROM (SELECT x, y FROM t ORDER BY x NULLS LAST, y LIMIT -1 OFFSET 1) q WHERE y = 1', 'tag': 'filter-above-offset'})
                 units.append({'db': db, 'stmts': st})
+    # LIMIT / OFFSET windows against batch boundaries: 12 distinct rows in several batch layouts (and Parquet row groups), every LIMIT and OFFSET in 0..13.
+    # Without ORDER BY any rows may come back, but exactly min(n, max(0, 12 - m)) distinct rows of the table; with ORDER BY the exact slice.
+    rows12 = [[i, i % 3] for i in range(12)]
+    win_layouts = [('b444', {'batches': [4, 4, 4]}), ('b57', {'batches': [5, 7]}), ('b1-11', {'batches': [1, 11]}), ('b3333', {'batches': [3, 3, 3, 3]}),
+                   ('parquet-rg4', {'storage': 'parquet', 'rg': 4}), ('parquet-rg5', {'storage': 'parquet', 'rg': 5})]
+    rng = range(0, 14) if not quick else (0, 1, 2, 3, 4, 5, 6, 7, 8, 11, 12, 13)
+    for lname, kw in win_layouts:
+        db = {'tables': [table('t', [['x', 'int64'], ['y', 'int64']], rows12, **kw)]}
+        st = []
+        for lim in rng:
+            for off in rng:
+                st.append({'sql': 'SELECT COUNT(*), COUNT(DISTINCT x), MIN(x) >= 0 AND MAX(x) <= 11 FROM (SELECT x FROM t LIMIT %d OFFSET %d) q' % (lim, off),
+                           'expect_rows': [[min(lim, max(0, 12 - off))] * 2 + [None if min(lim, max(0, 12 - off)) == 0 else True]], 'tag': 'window-size|' + lname, 'nontrivial': True})
+                st.append({'sql': 'SELECT x, y FROM t ORDER BY x LIMIT %d OFFSET %d' % (lim, off), 'ref': 'SELECT x, y FROM t', 'order': [(0, False, False)], 'limit': lim, 'offset': off,
+                           'tag': 'window-ordered|' + lname, 'nontrivial': True})
+        st.append({'sql': 'SELECT COUNT(*) FROM (SELECT x FROM t OFFSET 5) q', 'expect_rows': [[7]], 'tag': 'offset-only|' + lname})
+        for c in range(0, len(st), 100):
+            units.append({'db': db, 'stmts': st[c:c + 100]})
     rep.rule = ('all multisets of 1..%d rows over (x,y), x in %s x {NULL + 2 values}, y in {1,2} (ties and NULLs); ORDER BY x [, y] x ASC/DESC x {default, NULLS FIRST, NULLS LAST}; '
-                'LIMIT in %s x OFFSET in %s; layouts: one batch, three batches, 1-byte memory limit (spilled sort); plus ordinal / alias / expression keys; plus 4 LIMIT/OFFSET derived tables (and a CTE) under 7 outer filters, an aggregate, HAVING, joins, IN and a second LIMIT; '
+                'LIMIT in %s x OFFSET in %s; layouts: one batch, three batches, 1-byte memory limit (spilled sort); plus ordinal / alias / expression keys; plus every LIMIT x OFFSET window over a 12-row table in 4 batch layouts and 2 row-group layouts (size and membership without ORDER BY, exact slice with it); plus 4 LIMIT/OFFSET derived tables (and a CTE) under 7 outer filters, an aggregate, HAVING, joins, IN and a second LIMIT; '
                 'oracle: output sorted under the stated keys (default NULLS LAST), LIMIT/OFFSET slice equal to the reference slice up to ties' % (maxrows, types, limits, offsets))
     sqldiff.run(rep, units)
 
